@@ -6,6 +6,9 @@ Four kinds of case (field 'kind'):
   sofia_mv : sofia(MVContext of interval columns) + from_context
   tree     : parse_decision_tree_to_extents on a tree / forest fitted by scikit-learn
   forest   : random_forest_concepts(MVContext) + from_context(algo='RandomForest')
+  hist     : a history on ONE MVContext object: mine / binarize, edit it through the public setters
+             (ps.data = column, K.pattern_structures = ...), mine again; every step is judged
+             against the table the context holds at that moment
 scikit-learn is the input generator for the last two: the case holds the data and the
 parameters, run_impl fits the estimator, ships its arrays (children_left/right, feature,
 threshold) to the model and compares what FCApy reads off it.
@@ -21,7 +24,7 @@ CASE_TYPE = 'c15_case'
 CHECK = 'c15_check'
 SHOW = 'c15_show'
 SHARD = 150
-RULE = ('cases = Sofia on formal contexts (3 back-ends) and on interval many-valued contexts x L_max x '
+RULE = ('cases = histories (mine / edit through the public setters / mine again) on one many-valued context object; Sofia on formal contexts (3 back-ends) and on interval many-valued contexts x L_max x '
         'min_supp x both stability bounds, tree/forest extents and random-forest concepts on scikit-learn '
         'fits; non-trivial = Sofia case whose context has more extents than L_max + 2 (the limit binds) or '
         'a support threshold that removes something; tree/forest case with at least one split; forest '
@@ -118,7 +121,8 @@ def _preload():
 def run_impl(case):
     _preload()
     out = _run_impl(case)
-    if any(isinstance(v, list) and len(v) > 1 and v[0] == 'err' and v[1] == 'Timeout' for v in out.values()):
+    flat = list(out.values()) + [x for st in out.get('steps', []) for x in st]
+    if any(isinstance(v, list) and len(v) > 1 and v[0] == 'err' and v[1] == 'Timeout' for v in flat):
         out = _run_impl(case)            # a loaded machine: once more before believing a time-out
     return out
 
@@ -145,6 +149,35 @@ def _run_impl(case):
         if r[0] != 'ok':
             return {'res': list(r), 'lat': list(r)}
         return sofia_go(r[1], len(case['data'][0]))
+    if kind == 'hist':
+        from fcapy.algorithms.concept_construction import sofia
+        from fcapy.lattice import ConceptLattice
+        r = guarded(lambda: mv_context(case))
+        if r[0] != 'ok':
+            return {'steps': [[list(r), list(r)] for _ in case['ops']]}
+        K = r[1]
+        n_cols = len(case['data'][0])
+        steps = []
+        for op in case['ops']:
+            if op[0] == 'mine':
+                kw = dict(L_max=op[1], min_supp=op[2], use_log_stability_bound=op[3])
+                res = guarded(lambda: canon_mv(sofia(K, **kw), n_cols), 60)
+                lat = guarded(lambda: lattice_obs(ConceptLattice.from_context(K, algo='Sofia', **kw)), 60)
+                steps.append([list(res), list(lat)])
+            elif op[0] == 'binarize':
+                steps.append([list(guarded(lambda: [[bool(v) for v in row] for row in K.binarize().data.to_list()], 60))])
+            elif op[0] == 'setcol':
+                def setcol():
+                    K.pattern_structures[op[1]].data = [tuple(v) for v in op[2]]
+                    return True
+                steps.append([list(guarded(setcol, 60))])
+            else:
+                def setall():
+                    rows = [[tuple(v) for v in row] for row in op[1]]
+                    K.pattern_structures = K.assemble_pattern_structures(rows, K.pattern_types)
+                    return True
+                steps.append([list(guarded(setall, 60))])
+        return {'steps': steps}
     if kind == 'tree':
         import numpy as np
         from fcapy.algorithms.concept_construction import parse_decision_tree_to_extents
@@ -254,6 +287,22 @@ def to_coq(case, out):
         return 'CSofiaMV %s %d %s %s %s %s' % (
             p_mvctx(case['data']), case['L'], qterm(Fraction(case['ms'])), coq(bool(case['use_log'])),
             ires(out['res'], p_mv), ires(out['lat'], p_lat))
+    if kind == 'hist':
+        ops = []
+        for op, st in zip(case['ops'], out['steps']):
+            if op[0] == 'mine':
+                ops.append('(HMine %d %s %s %s %s)' % (op[1], qterm(Fraction(op[2])), coq(bool(op[3])),
+                                                      ires(st[0], p_mv), ires(st[1], p_lat)))
+            elif op[0] == 'binarize':
+                ops.append('(HBinarize %s)' % ires(st[0], lambda t: coq([[bool(v) for v in r] for r in t])))
+            elif st[0][0] != 'ok':           # a public setter raised: every later step is judged as failed
+                ops.append('(HMine 1 %s true (IErr %d) (IErr %d))' % (
+                    qterm(Fraction(0)), ERR_KINDS.get(st[0][1], 11), ERR_KINDS.get(st[0][1], 11)))
+            elif op[0] == 'setcol':
+                ops.append('(HSetCol %d %s)' % (op[1], p_mvctx([[v] for v in op[2]])[1:-1]))
+            else:
+                ops.append('(HSetAll %s)' % p_mvctx(op[1]))
+        return 'CHist %s [%s]' % (p_mvctx(case['data']), '; '.join(ops))
     if kind == 'tree':
         return 'CTree %s %s %s' % (p_arrays(out['arrays']),
                                    '[' + '; '.join(zlist(r) for r in case['X']) + ']',
@@ -367,6 +416,37 @@ def random_forest_case(rng, max_n, max_cols):
             'y': random_target(rng, len(data), model), 'model': model, 'params': tree_params(rng, model)}
 
 
+def random_hist_case(rng, max_n, max_cols):
+    """mine, edit through the public setters, mine again -- on one context object"""
+    data, mode = random_mv_data(rng, max_n, max_cols)
+    while len(data) < 2:
+        data, mode = random_mv_data(rng, max_n, max_cols)
+    n, k = len(data), len(data[0])
+
+    def mine():
+        return ['mine', rng.choice([1, 2, 3, 1000, 1000]), rng.choice([0, 0, 1, 2, 0.5]), rng.random() < 0.5]
+
+    def new_col():
+        hi = rng.choice([2, 3, 5, 9])
+        col = []
+        for _ in range(n):
+            a, b = rng.randint(0, hi), rng.randint(0, hi)
+            col.append([a, a] if rng.random() < 0.5 else [min(a, b), max(a, b)])
+        return col
+    ops = [mine() if rng.random() < 0.7 else ['binarize']]
+    for _ in range(rng.randint(1, 3)):
+        r = rng.random()
+        if r < 0.6:
+            ops.append(['setcol', rng.randrange(k), new_col()])
+        elif r < 0.8:
+            cols = [new_col() for _ in range(k)]
+            ops.append(['setall', [[cols[j][g] for j in range(k)] for g in range(n)]])
+        if rng.random() < 0.25:
+            ops.append(['binarize'])
+        ops.append(mine())
+    return {'kind': 'hist', 'data': data, 'numpy_ps': rng.random() < 0.5, 'shape': mode, 'ops': ops}
+
+
 def exhaustive_cases():
     for (h, w) in [(1, 1), (1, 2), (2, 1), (2, 2), (2, 3), (3, 2), (3, 3)]:
         for t in gen.all_tables(h, w):
@@ -395,8 +475,8 @@ def generate(rng, tier):
         cases += ex
         n_f, n_mv, n_tree, n_forest, n_grid, dim, mvn = 18000, 8000, 4000, 1500, 40, 8, 7
     else:
-        cases += rng.sample(ex, 500)
-        n_f, n_mv, n_tree, n_forest, n_grid, dim, mvn = 1800, 700, 400, 150, 5, 7, 6
+        cases += rng.sample(ex, 350)
+        n_f, n_mv, n_tree, n_forest, n_grid, dim, mvn = 1300, 450, 300, 100, 4, 7, 6
     cases += grid_cases(rng, n_grid, dim)
     for _ in range(n_f):
         cases.append(random_sofia_f(rng, dim))
@@ -406,6 +486,8 @@ def generate(rng, tier):
         cases.append(random_tree_case(rng, 10, 4))
     for _ in range(n_forest):
         cases.append(random_forest_case(rng, 8, 3))
+    for _ in range(2500 if tier == 'thorough' else 160):
+        cases.append(random_hist_case(rng, 6, 2))
     # kept together at the end so that one worker process (one joblib pool) runs them all
     for _ in range(48 if tier == 'thorough' else 8):
         cases.append(parallel_tree_case(rng))
@@ -430,6 +512,10 @@ def nontrivial(case):
         return _n_extents_formal(t) > case['L'] + 2 or (case['ms'] not in (0,) and len(t) >= 3)
     if k == 'sofia_mv':
         return len(case['data']) >= 3 and case['L'] <= 5
+    if k == 'hist':
+        ops = [o[0] for o in case['ops']]
+        return any(a in ('mine', 'binarize') and b in ('setcol', 'setall') for a, b in zip(ops, ops[1:])) \
+            and ops[-1] == 'mine'
     if k == 'tree':
         return len(set(map(tuple, case['X']))) >= 2 and len(set(case['y'])) >= 2
     return any(v[0] != v[1] for row in case['data'] for v in row) and len(set(case['y'])) >= 2
@@ -447,6 +533,8 @@ def stats(case):
         else:
             d['size'] = '%dx%d' % (len(case['data']), len(case['data'][0]))
             d['ps'] = 'numpy' if case.get('numpy_ps') else 'plain'
+    elif k == 'hist':
+        d.update({'history': '-'.join(o[0] for o in case['ops']), 'ps': 'numpy' if case.get('numpy_ps') else 'plain'})
     else:
         d.update({'model': case['model'], 'depth': case['params'].get('max_depth'), 'n_jobs': case.get('n_jobs', 1),
                   'joblib': case.get('joblib_backend', '-')})
@@ -490,6 +578,24 @@ def shrink(case):
             for L in (1, 2, 3):
                 if L < case['L']:
                     out.append(dict(case, L=L))
+    elif k == 'hist':
+        ops = case['ops']
+        for i in range(len(ops)):
+            if len(ops) > 1:
+                out.append(dict(case, ops=ops[:i] + ops[i + 1:]))
+        for i, op in enumerate(ops):
+            if op[0] == 'mine' and (op[1] != 1000 or op[2] != 0):
+                out.append(dict(case, ops=ops[:i] + [['mine', 1000, 0, op[3]]] + ops[i + 1:]))
+        data = case['data']
+        if len(data) > 2:
+            for g in range(len(data)):
+                def cut(op):
+                    if op[0] == 'setcol':
+                        return ['setcol', op[1], [v for q, v in enumerate(op[2]) if q != g]]
+                    if op[0] == 'setall':
+                        return ['setall', [r for q, r in enumerate(op[1]) if q != g]]
+                    return op
+                out.append(dict(case, data=[r for q, r in enumerate(data) if q != g], ops=[cut(o) for o in ops]))
     elif k == 'tree':
         X, y = case['X'], case['y']
         if len(X) > 2:
